@@ -395,9 +395,14 @@ impl<'c, KD: Kind, const N: usize> MapEng<'c, KD, N> {
             let nv = |raw: u8| KD::vnorm(base | raw as u32);
             let m = &mut slot.c.m;
             let mut visits = [0u8; 256];
+            // addresses of the references the predicate receives (no allocation inside the window)
+            let mut seen_refs: Vec<(usize, usize)> = Vec::with_capacity(N + 2);
             let r = Self::lib(cx, || {
                 m.retain(|kk, vv| {
                     tl::tick(Cb::Pred);
+                    if seen_refs.len() < seen_refs.capacity() {
+                        seen_refs.push((addr(kk), addr(vv)));
+                    }
                     let raw = KD::kraw(kk);
                     visits[raw as usize] = visits[raw as usize].saturating_add(1);
                     let kp = keep(raw);
@@ -409,6 +414,11 @@ impl<'c, KD: Kind, const N: usize> MapEng<'c, KD, N> {
             });
             cx.log(|| format!("retain[{w}](mask {mask:#x}, rewrite {rewrite}) -> {r:?}"));
             cx.bump(S::retains);
+            for (ka, va) in &seen_refs {
+                cx.bump(S::addr_checks);
+                let inside = slot.c.contains(*ka, std::mem::size_of::<KD::K>()) && slot.c.contains(*va, std::mem::size_of::<KD::V>());
+                cx.chk(P_ADDR, inside, "addr", || "retain handed its predicate a reference that points outside the container value".into());
+            }
             match r {
                 Ok(()) => {
                     let before = slot.model.len();
